@@ -476,7 +476,37 @@ def shards(tier, seed):
 # ---------------------------------------------------------------------------
 
 
+def registration(acc):
+    """every FunctionContext's executor is known to the registry (whose shutdown_all() is the global shutdown request), with the query
+    files in a temporary directory and with --dump-smt-directory"""
+    import z3
+
+    import halmos.processes as P
+    from halmos.calldata import FunctionInfo
+    from halmos.solve import ContractContext, FunctionContext
+    from mc import e2e
+
+    for label, opts in (("temporary directory", {}), ("--dump-smt-directory", {"dump_smt_directory": tempfile.mkdtemp(prefix="c17dump_", dir=e2e.workdir())})):
+        for k in range(2):
+            args = e2e.mk_config(dict(opts, solver_command="scripted-solver"))
+            cctx = ContractContext(args=args, name="C", funsigs=[f"check_{k}()"], creation_hexcode="", deployed_hexcode="", abi={}, method_identifiers={},
+                                   contract_json={}, libs={}, build_out_map={})
+            fctx = FunctionContext(args=args, info=FunctionInfo("C", f"check_{k}", f"check_{k}()", "00000000"), solver=z3.Solver(), contract_ctx=cctx)
+            acc.count("registration_cases")
+            ex = fctx.solving_ctx.executor
+            if ex not in P.ExecutorRegistry()._executors:
+                acc.violation(f"unregistered:{label}", f"the solver executor of a test function run with {label} is not registered with ExecutorRegistry: shutdown_all() (exit, ctrl-c) "
+                              "neither stops its solver processes nor refuses new jobs", {"conformance": True})
+                return
+            P.ExecutorRegistry().shutdown_all()
+            if not ex.is_shutdown():
+                acc.violation(f"not-shut-down:{label}", f"after ExecutorRegistry().shutdown_all() the executor of a test function run with {label} still accepts jobs", {"conformance": True})
+                return
+    acc.state(("registration",))
+
+
 def conformance(acc):
+    registration(acc)
     import halmos.processes as P
 
     def scenario(cmd, timeout, shutdown_wait, expect):
